@@ -7,11 +7,60 @@ ROOT = os.path.dirname(os.path.dirname(os.path.abspath(__file__)))
 
 # id -> (technique, level text, level note, design ref)
 CLAIMED = {
-    "C06": (
-        "exhaustive operator x boundary-value table + rapid typed expression trees and raw operator sequences, differential against an independent math/big evaluator",
-        "Every unary/binary operator is evaluated on every (pair of) value(s) of a 53-value boundary pool (complete enumeration, ~48k cells) and on tens of thousands of generated type-correct trees and malformed postfix sequences; each library result must equal the value or error of an independent arbitrary-precision evaluator and must not panic. Exploration: the table is complete for its pool, the rest is sampled.",
-        "Trusts Go's regexp (shared primitive) and the reference evaluator written from the property's operator table; string length asserted on ASCII only; union/intersection of differently-typed sets: totality only.",
-        "4/C06"),
+    "C01": ("rapid token histories x 26-entry catalogue of envelope mutations, differential against an independent ed25519 chain walk over an independent protobuf reader (both directions); native byte fuzzing in thorough",
+            "Every generated (history, mutation, verifying root) is judged by a reference chain verifier that shares no code with the library; accept and reject must agree exactly for structural mutations, soundness for raw byte mutations; every library-built token and every token signed by the harness's own signer must be accepted. Exploration of the catalogue, not a proof of unforgeability.",
+            "crypto/ed25519 trusted; root key id and protobuf encoding slack are unsigned and not claimed tamper-evident.", "4/C01"),
+    "C02": ("rapid goal-directed scenarios + adversarial appended block (API-built and wire-built with the holder's secret), metamorphic implication ok(T+B) => ok(T) plus reference verdict of the parent",
+            "Blocks are aimed at the reason the parent is refused (facts instantiating failing checks and allow-policy queries, rules deriving them, copies of authority facts, symbol-table tricks at wire level); acceptance of the extended token while the parent is refused is a violation.",
+            "A block that the builders or Unmarshal refuse counts as not widening; parent verdicts compared with the reference only inside the error-free fragment.", "4/C02"),
+    "C03": ("rapid scenarios with check-free block insertion, block permutation and query panels; metamorphic equality + reference closure for queries",
+            "Outcome class, failed-check count and every panel answer (with and without Authorize) must be identical with/without an aimed check-free block at any position and for every block order; query answers must equal the reference over the authority-level closure.",
+            "Inserted rules are error-free (a failing rule legitimately fails authorization); reference evaluator trusted for the closure.", "4/C03"),
+    "C04": ("rapid goal-directed (token, authorizer) scenarios, differential against an independent decision procedure (own least-fixpoint evaluator)",
+            "Verdict class of Authorize (allow / deny / no matching policy / failed checks / evaluation error) must equal the reference for every generated scenario in the fragment, including programmatic edge shapes and reloaded tokens; class balance is measured and reported.",
+            "Order-dependent scenarios (an expression errs on some bindings only) are excluded and counted; failed-check count is a soft diagnostic.", "4/C04"),
+    "C05": ("rapid typed Datalog programs directly on datalog.World, differential against a naive least-fixpoint with a substitution-based matcher (set equality both ways), query panel, permuted fact order",
+            "Every generated program's fact set after Run==nil must equal the reference least model exactly, every QueryRule answer must equal the reference answer, and both must be independent of fact order.",
+            "Limits raised far above program size; reference matcher trusted.", "4/C05"),
+    "C06": ("exhaustive operator x boundary-value table + rapid typed expression trees and raw operator sequences, differential against an independent math/big evaluator",
+            "Every unary/binary operator is evaluated on every (pair of) value(s) of a 53-value boundary pool (complete enumeration, ~48k cells) and on generated type-correct trees and malformed postfix sequences; each library result must equal the value or error of an independent arbitrary-precision evaluator and must not panic.",
+            "Go regexp is a shared primitive; string length asserted on ASCII only; union/intersection of differently-typed sets: totality only.", "4/C06"),
+    "C07": ("rapid build/append/seal/serialize/unmarshal histories over rich content, independent protobuf decoding + specification symbol rules vs supplied content; byte-exact re-serialization; version gate on harness-signed tokens",
+            "The serialized bytes, read by a decoder typed in from the published schema with its own default-symbol table and offset, must give back block for block what the callers supplied; Unmarshal must preserve every observation and authorization behaviour and re-serialize identically; blocks declaring another version must be rejected.",
+            "Facts/rules compared as multisets per block; independent codec trusted.", "4/C07"),
+    "C08": ("rapid operation histories (state-machine style) over a family of tokens, builders and blocks sharing ancestors; per-token model and birth snapshot, invariant after every step",
+            "After every operation every live token must still show its birth observations (String, Code, Serialize, RevocationIds, reloaded String, panel outcomes) and every new token must decode, independently, to exactly what its own callers supplied.",
+            "A block is appended only to the token whose CreateBlock made it; Build once per builder.", "4/C08"),
+    "C09": ("rapid goal-directed token + sealed twin + authorizer panel + 11 sealed-envelope mutations; metamorphic equality and reference chain walk",
+            "Sealed token (and its reload) must verify under the same root, give the same outcome and query answers as the unsealed token for every panel member, keep its revocation ids, refuse Append and Seal; every tampered sealed envelope must be rejected in agreement with the reference.",
+            "crypto/ed25519 trusted.", "4/C09"),
+    "C10": ("rapid structure-aware hostile tokens (independent writer, signed by an attacker root), byte mutations and random bytes, executed in an isolated worker process; native coverage-guided fuzzing in thorough",
+            "Every case runs Unmarshal and then every operation of the property in a child process; a recovered panic or the death of the child (panic on a library goroutine) is a violation; errors are the expected outcome.",
+            "A worker exceeding 20 s is inconclusive; hostile programs run under small limits.", "4/C10"),
+    "C11": ("rapid program classes sized against limits (blow-up, chains, calibrated heavy joins, ill-formed rules) x limit configurations x entry points; reference sizes vs sentinels; goroutine-quiescence probe",
+            "Success implies the reference fixpoint; exceeding a limit implies the matching exported sentinel through NewWorld, NewVerifier, Authorizer and AuthorizerFor and in every block position; no spurious limit; after return no library goroutine stays parked in a channel send with no possible receiver.",
+            "Exact boundaries not asserted; liveness decided via a safety proxy (quiescent parked sender); single late return inconclusive.", "4/C11"),
+    "C12": ("rapid scenarios + presentation variants (permutation, bijective renaming, duplication, repeated Authorize); metamorphic equality of verdict and query answers",
+            "Only the transformations the property lists are applied; verdict of every call and every panel answer must be equal between base and variant.",
+            "Scenarios whose verdict is an evaluation error or order-dependent are excluded and counted.", "4/C12"),
+    "C13": ("rapid histories of (add content, authorize/query, Reset) rounds on one authorizer with related consecutive rounds; each round compared with a fresh authorizer",
+            "Every round's outcome and panel answers on the reused authorizer must equal those of a fresh authorizer given only that round's content; histories where a leak would be visible are counted as non-trivial.",
+            "Compares two executions of the library; verdict correctness itself is C04's subject.", "4/C13"),
+    "C16": ("rapid ids x derivation histories x key maps and defaults; id preserved along the history (API and independent wire reader); lookup model",
+            "RootKeyID and the serialized identifier must equal the creation identifier after every append / seal / reload; AuthorizerFor(WithRootPublicKeys) must succeed iff the model projection selects the real root key, fail with ErrNoPublicKeyAvailable iff it selects nothing, and fail otherwise when it selects a wrong key.",
+            "Independent wire reader trusted.", "4/C16"),
+    "C17": ("rapid derivation histories with identical block content signed repeatedly; count, prefix stability, equality with independently decoded signatures, pairwise distinctness",
+            "One identifier per block, parent's identifiers are a prefix of the child's, identifier i equals the signature the independent reader finds on block i, identifiers of different signing operations differ over the whole history.",
+            "Fresh randomness modelled by a non-repeating deterministic stream.", "4/C17"),
+    "C18": ("rapid authorizer contents x two tokens, restored vs direct authorizer (metamorphic), refusal after evaluation, malformed snapshots written with the independent writer",
+            "A fresh authorizer that loads the snapshot must behave (Authorize class, panel answers) like a fresh authorizer given the content directly; saving must fail after Authorize or Query; malformed snapshots must be refused without panic and whatever is loaded must be usable without panic.",
+            "Non-empty sets only (encoder refuses empty sets by design).", "4/C18"),
+    "C19": ("rapid sets of goroutine scripts over one shared token / parsed values / parser, executed 20x in a -race worker; race reports and comparison with solo runs",
+            "No data race report (Go race detector, halt on first report) and every operation's canonical result equal to the same script run alone on a private copy of the token.",
+            "The harness does not own the scheduler; happens-before race detection is timing-independent, wrong results without a race are only sampled.", "4/C19"),
+    "C20": ("fault enumeration: every randomness-drawing operation x every fault point k<32 (plus controls) x failure kind x chunking, for generated token shapes",
+            "For k<32 the operation must return an error and no token without panicking; for k>=32 the announced next key and the proof must derive from the first 32 delivered bytes and the chain must verify per the reference. The cell space is enumerated completely for each shape.",
+            "ed25519.GenerateKey reads exactly 32 bytes with io.ReadFull (Go 1.23).", "4/C20"),
 }
 
 NOT_YET = "check not built yet in this session (planned in DESIGN.md section 4); not claimed until its check runs clean on the unchanged tree"
